@@ -70,6 +70,32 @@ impl ManifestFormat for YamlFormat<'_> {
 	}
 }
 
+/// Characters that JSON allows unescaped in a string but that must not appear literally in a
+/// YAML double-quoted scalar: U+007F and the C1 controls are not printable in YAML, NEL
+/// (U+0085), LS (U+2028) and PS (U+2029) are line breaks for YAML 1.1 readers, and U+FFFE/U+FFFF
+/// are excluded from YAML streams altogether.
+fn yaml_needs_escape(c: char) -> bool {
+	matches!(c, '\u{7f}'..='\u{9f}' | '\u{2028}' | '\u{2029}' | '\u{fffe}' | '\u{ffff}')
+}
+
+/// Writes a double-quoted scalar: a JSON string with the characters above as `\uXXXX`.
+fn escape_string_yaml_buf(value: &str, buf: &mut String) {
+	let start = buf.len();
+	escape_string_json_buf(value, buf);
+	if value.chars().any(yaml_needs_escape) {
+		let mut escaped = String::with_capacity(buf.len() - start);
+		for c in buf[start..].chars() {
+			if yaml_needs_escape(c) {
+				write!(escaped, "\\u{:04x}", c as u32).unwrap();
+			} else {
+				escaped.push(c);
+			}
+		}
+		buf.truncate(start);
+		buf.push_str(&escaped);
+	}
+}
+
 fn bare_safe(key: &str) -> bool {
 	fn count_char_u(k: &str, c: char) -> usize {
 		let cu = c.to_ascii_uppercase();
@@ -210,7 +236,7 @@ fn manifest_yaml_ex_buf(
 			} else if !options.quote_values && bare_safe(&s) {
 				buf.push_str(&s);
 			} else {
-				escape_string_json_buf(&s, buf);
+				escape_string_yaml_buf(&s, buf);
 			}
 		}
 		Val::Num(n) => write!(buf, "{}", *n).unwrap(),
@@ -271,7 +297,7 @@ fn manifest_yaml_ex_buf(
 				if !options.quote_keys && bare_safe(&key) {
 					buf.push_str(&key);
 				} else {
-					escape_string_json_buf(&key, buf);
+					escape_string_yaml_buf(&key, buf);
 				}
 				buf.push(':');
 				let prev_len = cur_padding.len();
